@@ -27,7 +27,7 @@ pub fn run(tier: Tier) -> i32 {
 }
 
 fn first_calls(rep: &Report, tier: Tier) {
-    let ps: Vec<usize> = if tier.thorough() { let mut v = p_set(); v.extend((0..=70000).step_by(97)); uniq(v) } else { p_set() };
+    let ps: Vec<usize> = if tier.thorough() { let mut v = p_set(); v.extend((0..=70000).step_by(13)); uniq(v) } else { p_set() };
     let bs = b_set();
     let pts: Vec<u16> = vec![0x0600, 0x0800, 0xFFFF, 0x0081];
     let fids: Vec<u8> = vec![0, 0xA7, 255];
